@@ -7,6 +7,8 @@ import (
 	"crypto/sha256"
 	"encoding/hex"
 	"encoding/json"
+	"net/http"
+	"net/http/httptest"
 	"strings"
 	"sync"
 	"testing"
@@ -415,4 +417,79 @@ func TestVerifC11Idle(t *testing.T) {
 	res["after_c2s_ok"] = dr.Status == 200 && ok && len(recv) >= 2 && string(recv[len(recv)-1].Data) == "c2s-after"
 	shim.call("close", verifSessionBody(id), nil, 5*time.Second)
 	out.emit(res)
+}
+
+// TestVerifC11SendThenClose: a data post that the shim has answered 200 is followed at once by the close of the session,
+// while the backend is still taking the messages in (it needs 20 ms per message; the batch is larger than the shim's
+// queue).  Every message of the accepted post must reach the backend, in order, before the websocket is closed.
+func TestVerifC11SendThenClose(t *testing.T) {
+	out := verifOpenOut(t)
+	defer out.close()
+	up := websocket.Upgrader{ReadBufferSize: 4096, WriteBufferSize: 4096}
+	for _, sc := range []struct {
+		name   string
+		n, sz  int
+		perMsg time.Duration
+	}{{"12 x 1 MiB, 20 ms each", 12, 1 << 20, 20 * time.Millisecond}, {"30 x 10 B, 10 ms each", 30, 10, 10 * time.Millisecond}, {"8 x 100 B, prompt reader", 8, 100, 0}} {
+		type got struct {
+			lens      []int
+			firstByte []byte
+			closeCode int
+		}
+		resc := make(chan got, 1)
+		srv := httptest.NewServer(http.HandlerFunc(func(w http.ResponseWriter, r *http.Request) {
+			c, err := up.Upgrade(w, r, nil)
+			if err != nil {
+				return
+			}
+			defer c.Close()
+			var g got
+			g.closeCode = -1
+			for {
+				_, data, err := c.ReadMessage()
+				if err != nil {
+					if ce, ok := err.(*websocket.CloseError); ok {
+						g.closeCode = ce.Code
+					}
+					resc <- g
+					return
+				}
+				g.lens = append(g.lens, len(data))
+				if len(data) > 0 {
+					g.firstByte = append(g.firstByte, data[0])
+				}
+				time.Sleep(sc.perMsg)
+			}
+		}))
+		shim := newVerifShim(strings.TrimPrefix(srv.URL, "http://"), false)
+		r, id := shim.open("ws://ignored/ws", "1")
+		res := map[string]interface{}{"kind": "send-then-close", "scenario": sc.name, "messages": sc.n, "size": sc.sz, "open_status": r.Status}
+		if r.Status == 200 {
+			var post []map[string]interface{}
+			for i := 0; i < sc.n; i++ {
+				b := bytes.Repeat([]byte{byte('a' + i%26)}, sc.sz)
+				post = append(post, verifClientMsg(id, verifWSMsg{Type: websocket.TextMessage, Data: b}, 1))
+			}
+			body, _ := json.Marshal(post)
+			dr := shim.call("data", body, nil, 60*time.Second)
+			cr := shim.call("close", verifSessionBody(id), nil, 30*time.Second)
+			res["data_status"], res["close_status"] = dr.Status, cr.Status
+			select {
+			case g := <-resc:
+				inOrder := len(g.lens) == sc.n
+				for i := 0; inOrder && i < len(g.firstByte); i++ {
+					inOrder = g.lens[i] == sc.sz && g.firstByte[i] == byte('a'+i%26)
+				}
+				res["backend_received"] = len(g.lens)
+				res["all_in_order"] = inOrder
+				res["backend_close_code"] = g.closeCode
+			case <-time.After(30 * time.Second):
+				res["backend_received"] = -1
+				res["all_in_order"] = false
+			}
+		}
+		out.emit(res)
+		srv.CloseClientConnections()
+		srv.Close()
+	}
 }
